@@ -6,6 +6,7 @@ CONSTANTS
   Pts = {}
   Layouts = {}
   AnchorKinds = {}
+  Ancs = {}
   Deviation = "none"
 CHECK_DEADLOCK FALSE
 INVARIANT TraceTypeOK
